@@ -88,9 +88,13 @@ def one_run(args):
                known=[(v.sig, v.known_entry.get("id")) for v in known_own],
                wall=time.time() - t0, log_digest=log_digest(w),
                state_digests=state_digests(mw), kinds=op_kind_pairs(ops))
+    if w.slow:
+        res["slow"] = dict(cfg=cfg, ops=ops, where=w.slow)
     if own:
         res["cfg"] = cfg
         res["ops"] = ops
+    elif foreign and os.environ.get("VERIF_KEEP_FOREIGN"):
+        res["foreign_case"] = dict(cfg=cfg, ops=ops, v=foreign[0].as_dict())
     if idx < 3:
         res["sample"] = ops[:25]
     if prop == "C03":
@@ -326,6 +330,20 @@ def main_check(prop, tier, base_seed, budget, max_runs, workers, verbose=False):
                 pairs.update(r["kinds"])
                 if r.get("sample") is not None and len(samples) < 3:
                     samples.append(dict(seed=r["seed"], ops=r["sample"]))
+                if r.get("slow"):
+                    os.makedirs(os.path.join(OUT, "slow"), exist_ok=True)
+                    with open(os.path.join(OUT, "slow", f"{prop}-{r['idx']}.json"), "w") as f:
+                        json.dump(dict(property=prop, seed=r["seed"], config=r["slow"]["cfg"], ops=r["slow"]["ops"],
+                                       where=r["slow"]["where"], wall=r["wall"]), f, default=repr)
+                if r.get("foreign_case"):
+                    fc = r["foreign_case"]
+                    os.makedirs(os.path.join(OUT, "foreign"), exist_ok=True)
+                    fn = os.path.join(OUT, "foreign", f"{prop}-{'+'.join(fc['v']['props'])}-"
+                                      f"{hashlib.sha1(fc['v']['signature'].encode()).hexdigest()[:8]}.json")
+                    if not os.path.exists(fn):
+                        with open(fn, "w") as f:
+                            json.dump(dict(property=fc["v"]["props"][0], seed=r["seed"], config=fc["cfg"], ops=fc["ops"],
+                                           expected_signature=fc["v"]["signature"], detail=fc["v"]["detail"]), f, default=repr)
                 if r["own"] and first_violation is None:
                     first_violation = r
                     stop_submitting = True
@@ -474,6 +492,17 @@ def triage(prop, tier, base_seed, n, shrink_s=15):
             print("     ", o)
 
 
+def shrink_file(path):
+    with open(path) as f:
+        r = json.load(f)
+    prop = r["property"]
+    small = shrink(prop, r["config"], r["ops"], r["expected_signature"], (), time.time() + 60)
+    print(r["expected_signature"])
+    print(str(r["detail"])[:1500])
+    for o in small:
+        print("   ", o)
+
+
 def main(argv=None):
     ap = argparse.ArgumentParser()
     ap.add_argument("prop", nargs="?")
@@ -487,9 +516,13 @@ def main(argv=None):
     ap.add_argument("--hash-worker", nargs=5)
     ap.add_argument("-v", action="store_true")
     ap.add_argument("--triage", type=int)
+    ap.add_argument("--shrink-file")
     a = ap.parse_args(argv)
     if a.hash_worker:
         hash_worker_main(a.hash_worker)
+        return 0
+    if a.shrink_file:
+        shrink_file(a.shrink_file)
         return 0
     if a.replay:
         ok = replay_file(a.replay, a.quiet)
